@@ -51,6 +51,10 @@ claim("C17","fault_enumeration","file-system snapshot diff (whole sandbox tree: 
  "The real thriftrw binary runs in a sandbox parent/{thrift,out,other} with canaries and a pre-populated out directory. Enumerated: plugin path shapes (absolute, '..' forms, aliases of core and other plugins' paths, directories, NUL, deep), every named failure cause, the k-th of n modules failing, thrift-root layouts; plus random combinations. After each run the snapshots decide confinement, conflict reporting, all-or-nothing and the expected generated paths; strace -f on a sample confirms no write-mode open outside out.",
  "failures that can only arise while writing are only checked for confinement; symlinks inside out are not explored", "DESIGN.md §5 C17")
 
+claim("C20","exploration","runtime monitor: edit-script oracle over scratch git histories, real thriftbreak binary, readable and JSON output, repeated runs",
+ "Each case builds a two-commit git repository (git CLI) from a generated multi-file program and a random script of documented breaking and compatible edits; the diagnostics the script implies are known by construction and must equal, as a multiset of (file, kind, names), what the real thriftbreak binary prints in both output modes on three runs each, together with the exit status.",
+ "edit kinds whose classification the documentation leaves open are not generated", "DESIGN.md §5 C20")
+
 NOT_IMPL = "check not implemented yet in this round (statement about the machinery, not the technique)"
 
 def main():
